@@ -144,8 +144,10 @@ def run(an: Analysis, rep):
         "k_V from dis.py, next_offset = opcode offset + 2, first offset = opcode offset - 2*(prefixes); the encoder's multiplier "
         "satisfies k_V*m_V = 2 and relative jumps are measured from the end of the jump instruction; the cell/free split tests "
         "arg < len(cellvars) and indexes freevars with arg - len(cellvars); the line of an instruction is looked up under its "
-        "first code unit; EXTENDED_ARG accumulators are reset after each instruction. That each decoded value is right for a "
-        "particular program is not decided."
+        "first code unit; EXTENDED_ARG accumulators are reset after each instruction. R02.F folds the decoder's instruction function over "
+        "witness code-unit sequences and compares with a transcription of what CPython's disassembler reports (names, operands per category, "
+        "cell-before-free, jump targets and kinds, block starts, lines of first code units, unreferenced entries). That each decoded value is "
+        "right for a particular program outside the witness set is not decided."
     )
     rep.rule("R02.1", "operand category -> payload table binding", 6)
     rep.rule("R02.2", "category exhaustiveness on both sides", 8)
